@@ -437,7 +437,7 @@ func (p *parser) parsePrimary() *Node {
 				if tokIsK(nx, "function") {
 					return p.parseFunction(false, false)
 				}
-				if nx.Kind == TIdent {
+				if nx.Kind == TIdent && tokIsP(p.peek(2), "=>") {
 					// async x => ...
 					startTok := p.start(NArrow)
 					p.next()
@@ -800,6 +800,15 @@ func endsPropertyName(t *Token) bool {
 	return false
 }
 
+// startsPropertyKey reports whether t can begin a property name.
+func startsPropertyKey(t *Token) bool {
+	switch t.Kind {
+	case TIdent, TKeyword, TString, TNum, TBigInt, TPrivateName:
+		return true
+	}
+	return tokIsP(t, "[")
+}
+
 func (p *parser) parseObjectLiteral() *Node {
 	n := p.start(NObject)
 	p.expectP("{")
@@ -838,7 +847,7 @@ func (p *parser) parseObjectProperty() *Node {
 		gen = true
 		p.next()
 	}
-	if !async && !gen && (p.isId("get") || p.isId("set")) && !endsPropertyName(p.peek(1)) {
+	if !async && !gen && (p.isId("get") || p.isId("set")) && startsPropertyKey(p.peek(1)) {
 		prop.Name = p.t.Ident
 		p.next()
 	}
